@@ -27,14 +27,23 @@ type isoReq struct {
 	Files  map[string]string `json:"files,omitempty"`
 	// OpenFails: the loader says this path exists, but opening it fails (unreadable file, a delete racing with the lookup)
 	OpenFails string `json:"open_fails,omitempty"`
+	// OpenFailsKind: "" = an ordinary error; "runtime" = the error value is a Go runtime error (the loader recovered
+	// from a fault of its own and hands back what it recovered): an error like any other for the Set
+	OpenFailsKind string `json:"open_fails_kind,omitempty"`
 }
 
 type openFailLoader struct {
 	jet.Loader
 	path string
+	kind string
 }
 
-func (l *openFailLoader) Open(p string) (io.ReadCloser, error) {
+func (l *openFailLoader) Open(p string) (rc io.ReadCloser, err error) {
+	if p == l.path && l.kind == "runtime" {
+		defer func() { err, _ = recover().(error) }()
+		var index []int
+		_ = index[len(p)]
+	}
 	if p == l.path {
 		return nil, fmt.Errorf("open %s: permission denied (injected)", p)
 	}
@@ -50,7 +59,7 @@ func isoSet(files map[string]string, req isoReq) *jet.Set {
 	for k, v := range files {
 		m.Set(k, v)
 	}
-	return jet.NewSet(&openFailLoader{Loader: m, path: req.OpenFails}, req.Delims.Options()...)
+	return jet.NewSet(&openFailLoader{Loader: m, path: req.OpenFails, kind: req.OpenFailsKind}, req.Delims.Options()...)
 }
 
 type isoResp struct {
